@@ -185,6 +185,41 @@ def run(ctx):
             if cc != int(c.max()):
                 ctx.oracle_fail("after %s the common value %s occurs %d times but %s occurs %d times (index of %d cells)" % (
                     via, res.common, cc, int(v[int(np.argmax(c))]), int(c.max()), arr.size), desc, cls="C15-common-not-most-frequent")
+    # a lead of ONE cell at EVERY size: n cells, the stored common value 3 in c of them, 7 (a greater key) in c - 1, the rest
+    # spread over values that occur less often - for every n and every c that fits.  shift_common() must leave 3.
+    top = 64 if ctx.scale == 1 else 220
+    nlead = 0
+    for n in range(3, top + 1):
+        for c in range(2, (n + 1) // 2 + 1):
+            rest = n - (2 * c - 1)
+            flat = [3] * c + [7] * (c - 1)
+            v = 10
+            while rest > 0:
+                take = min(rest, max(1, c - 2))
+                flat += [v] * take
+                rest -= take
+                v += 1
+            if c - 2 < 1 and n - (2 * c - 1) > 0:
+                continue           # the rest could not stay below the runner-up
+            arr = np.array(flat, dtype=np.int64)
+            arr = arr[np.random.default_rng(n * 1000 + c).permutation(n)]
+            shapes = [(n,)] + ([(n // 2, 2)] if n % 2 == 0 else [])
+            for shape in shapes:
+                a = arr.reshape(shape)
+                nlead += 1
+                ctx.evaluations += 1
+                try:
+                    ix = iindex.from_array(a, common=3)
+                    ix.shift_common()
+                except Exception as e:
+                    ctx.oracle_fail("shift_common() raised %s" % type(e).__name__, {"lead_of_one": [n, c], "shape": list(shape)}, cls="C15-raises")
+                    continue
+                if int(ix.common) != 3:
+                    ctx.oracle_fail("shift_common() on an index of %d cells whose common value 3 occurs %d times chose %s, which occurs "
+                                    "%d times" % (n, c, ix.common, int(np.count_nonzero(a == ix.common))),
+                                    {"lead_of_one": [n, c], "shape": list(shape)}, cls="C15-common-not-most-frequent")
+    ctx.hit("lead_of_one_cell", nlead)
+    ctx.exhaustive.append("shift_common() with the stored common value leading a greater key by one cell: every size 3..%d, every count" % top)
     # equality across histories
     for _ in range(ctx.n(120)):
         steps = hist.run_history(ctx.rng, ctx.rng.randrange(0, 6), ndim=ctx.rng.choice([1, 2]),
@@ -211,6 +246,20 @@ def run(ctx):
 def replay(ctx, rep):
     core.load_catii()
     c = rep["case"]
+    if "lead_of_one" in c:
+        from catii import iindex
+        n, cnt = c["lead_of_one"]
+        flat = [3] * cnt + [7] * (cnt - 1)
+        rest, v = n - (2 * cnt - 1), 10
+        while rest > 0:
+            take = min(rest, max(1, cnt - 2))
+            flat += [v] * take
+            rest -= take
+            v += 1
+        arr = np.array(flat, dtype=np.int64)[np.random.default_rng(n * 1000 + cnt).permutation(n)].reshape(c["shape"])
+        ix = iindex.from_array(arr, common=3)
+        ix.shift_common()
+        return int(ix.common) == 3
     if "index" in c:
         ix = I.from_json(c["index"])
         c2 = core.Ctx(ID, "quick", 0)
